@@ -73,6 +73,27 @@ Theorem C05_one_vs_all : forall n M, square n M ->
 Proof. exact c05_one_vs_all_proof. Qed.
 Print Assumptions C05_one_vs_all.
 
+(* for a non-negative matrix every one-vs-all cell is non-negative - in particular TN_j >= 0, which the
+   repaired code (TN_j = direct sum of the entries outside row j and column j, /repo f952c55) also gives in
+   floating point - and therefore every per-class rate lies in [0,1] (or is NaN) *)
+Theorem C05_one_vs_all_nonneg : forall M j, mat_nonneg M -> nonneg (ova_one M j).
+Proof. exact ova_one_nonneg. Qed.
+Print Assumptions C05_one_vs_all_nonneg.
+
+Theorem C05_per_class_rates_in01 : forall M N, mat_nonneg M ->
+  Forall (fun m => in01 (tpr m) /\ in01 (fnr m) /\ in01 (tnr m) /\ in01 (fpr m) /\ in01 (ppv m) /\ in01 (npv m) /\
+                   in01 (fdr m) /\ in01 (for_ m) /\ in01 (topr m) /\ in01 (tonr m) /\ in01 (accuracy m) /\
+                   in01 (error_rate m)) (one_vs_all M N).
+Proof. exact per_class_rates_in01. Qed.
+Print Assumptions C05_per_class_rates_in01.
+
+(* TN_j is the sum of the entries outside row j and column j = population - row j - column j + M[j][j] *)
+Theorem C05_tn_direct_sum : forall M j,
+  tn (ova_one M j) = total (others M j) /\
+  total (others M j) == total M - row_sum M j - col_sum M j + entry M j j.
+Proof. exact c05_tn_direct_sum_proof. Qed.
+Print Assumptions C05_tn_direct_sum.
+
 (* per-class metrics are equivariant under class permutation: the vector of the permuted matrix is
    the vector of the original re-indexed by the permutation - for every count, every rate ... *)
 Theorem C05_per_class_permute : forall N M sigma, square N M -> Permutation sigma (seq 0 N) ->
@@ -118,10 +139,7 @@ Example C05_example :
   assign_from_predictions classes samples = Some [[1; 3; 0]; [0; 1; 0 + 2 + 1]; [0; 0; 1#2]] /\
   implicit_classes samples = [0; 1; 2]%Z /\
   Permutation [1; 2; 0]%nat (seq 0 3) /\
-  one_vs_all [[1; 3; 0]; [0; 1; 3]; [0; 0; 1#2]] 3 =
-    [Build_cm2 1 (1 + (3 + (0 + 0)) - 1) (1 + (0 + (0 + 0)) - 1)
-       ((1 + (3 + (0 + 0))) + ((0 + (1 + (3 + 0))) + ((0 + (0 + ((1#2) + 0))) + 0)) -
-        (1 + (1 + (3 + (0 + 0)) - 1) + (1 + (0 + (0 + 0)) - 1) + 0));
-     ova_one [[1; 3; 0]; [0; 1; 3]; [0; 0; 1#2]] 1; ova_one [[1; 3; 0]; [0; 1; 3]; [0; 0; 1#2]] 2] /\
+  Forall2 cm2_eq (one_vs_all [[1; 3; 0]; [0; 1; 3]; [0; 0; 1#2]] 3)
+    [Build_cm2 1 3 0 (9#2); Build_cm2 1 3 3 (3#2); Build_cm2 (1#2) 0 3 5] /\
   map tpr (one_vs_all [[1; 3; 0]; [0; 1; 3]; [0; 0; 1#2]] 3) <> map tpr (one_vs_all (permute [[1; 3; 0]; [0; 1; 3]; [0; 0; 1#2]] [1; 2; 0]%nat) 3).
 Proof. exact c05_example_proof. Qed.
